@@ -17,7 +17,7 @@ def esc(s):
 class Block:
     def __init__(self, key, kind, canon, text, label_kind=None):
         self.key = key              # tuple identifying the block inside the model
-        self.kind = kind            # declaration | parameter | label | instantiation | system
+        self.kind = kind            # declaration | parameter | label | instantiation | system | query
         self.canon = canon          # fully indexed path of the element
         self.text = text
         self.label_kind = label_kind
@@ -40,6 +40,10 @@ def blocks_of(m):
     if m.get("inst") is not None:
         out.append(Block(("inst",), "instantiation", "/nta[1]/instantiation[1]", m["inst"]))
     out.append(Block(("system",), "system", "/nta[1]/system[1]", m["system"]))
+    # the queries stored in the model file: text blocks too, parsed in a second step (by whoever runs the queries) against the finished
+    # document, with the XPath the reader recorded for their <formula> element
+    for k, q in enumerate(m.get("queries", [])):
+        out.append(Block(("query", k), "query", "/nta[1]/queries[1]/query[%d]/formula[1]" % (k + 1), q))
     return out
 
 
@@ -89,8 +93,8 @@ def render(m, override=None, cdata=()):
     o.append("<system>%s</system>\n" % txt(("system",), m["system"]))
     if m.get("queries"):
         o.append("<queries>\n")
-        for q in m["queries"]:
-            o.append("<query><formula>%s</formula><comment>c</comment></query>\n" % esc(q))
+        for k, q in enumerate(m["queries"]):
+            o.append("<query><formula>%s</formula><comment>c</comment></query>\n" % txt(("query", k), q))
         o.append("</queries>\n")
     o.append("</nta>\n")
     return "".join(o)
@@ -135,7 +139,8 @@ def seeds():
                  {"source": "id6", "target": "id5", "labels": [("guard", "len > 0 && forall (k : id_t) seen[k] < 1000"), ("synchronisation", "go[front()]!")]},
                  {"source": "id7", "target": "id5", "labels": [("synchronisation", "stop[tail()]!")]}]}],
         "system": "system Train, Gate;",
-        "queries": ["A[] not deadlock"]})
+        "queries": ["A[] not deadlock", "E<> len > 1 && Gate.Occ", "A[] forall (i : id_t) list[i] <= N - 1 \\\n  && len <= N",
+                    "Train(0).Appr --> Train(0).Cross"]})
     # 2: structs, records, if/for, instantiation block, urgent location, two instances
     s.append({
         "decl": FAULT_GLOBALS + "typedef struct { int a; bool b; } rec_t;\nrec_t r = { 1, true };\nconst int M = 4;\nint buf[M] = { 0, 1, 2, 3 };\n"
@@ -160,7 +165,8 @@ def seeds():
                  {"source": "b1", "target": "b0", "labels": [("synchronisation", "tick?")]},
                  {"source": "b1", "target": "b1", "labels": [("guard", "exists (j : int[0, M - 1]) buf[j] == got"), ("assignment", "got = 0")]}]}],
         "inst": "P1 = P(1, 5);\nP2 = P(2, 7);\n",
-        "system": "system P1, P2, Q;"})
+        "system": "system P1, P2, Q;",
+        "queries": ["E<> P1.Busy && total >= 0", "A[] Q.got <= M * 10 && P2.loc >= 0"]})
     # 3: stochastic / hybrid: branchpoint with probabilities, exponential rate, clock rates, doubles
     s.append({
         "decl": FAULT_GLOBALS + "const double RATE = 2.5;\ndouble acc = 0.0;\nint cnt = 0;\nclock g;\nbroadcast chan b;\n"
@@ -178,7 +184,7 @@ def seeds():
                  {"source": "s1", "target": "s0", "labels": [("guard", "x >= 1 && cnt < 100"), ("assignment", "y = 0")]},
                  {"source": "s2", "target": "s0", "labels": [("assignment", "x = 0, y = 0, w = (w * 2) % 7 + 1")]}]}],
         "system": "system S;",
-        "queries": ["Pr[<=10](<> S.L1)"]})
+        "queries": ["Pr[<=10](<> S.L1)", "E<> cnt > 2 && S.L2"]})
     # 4: many small templates / labels: sibling indices get large; scalar sets; channel arrays; priorities
     s.append({
         "decl": FAULT_GLOBALS + "typedef scalar[3] sid_t;\nchan hs[3];\nint v[3] = { 1, 2, 3 };\nbool flag = false;\nmeta int tmp;\n"
@@ -191,7 +197,8 @@ def seeds():
                               "labels": [("guard", "z >= %d && pick(%d) > 0" % (j, i)), ("synchronisation", "hs[%d]%s" % (i % 3, "!" if i % 2 == 0 else "?")),
                                          ("assignment", "z = 0, v[%d] = pick(%d) + %d" % (i % 3, j, j))]} for j in range(3)]}
             for i in range(4)],
-        "system": "system A0, A1 < A2, A3;"})
+        "system": "system A0, A1 < A2, A3;",
+        "queries": ["A[] A0.z >= 0 && v[0] + v[1] > 0", "E<> flag == false && pick(1) > 0"]})
     return s
 
 
@@ -206,6 +213,7 @@ OLD_SYNTAX_XTA = "int x; clock c;\nprocess P { state S0 { c <= 5 }, S1; init S0;
 TOKEN_RE = re.compile(r"""
     (?P<ws>(?:[ \t\r\n]|\\[ \t]*\n)+)
   | (?P<cmt>/\*.*?\*/|//[^\n]*)
+  | (?P<pq>A\[\]|A<>|E\[\]|E<>|<>)
   | (?P<id>[A-Za-z_][A-Za-z0-9_]*)
   | (?P<num>[0-9]+(?:\.[0-9]+)?(?:[eE][+-]?[0-9]+)?)
   | (?P<op><<=|>>=|-->|\+\+|--|&&|\|\||==|!=|<=|>=|:=|\+=|-=|\*=|/=|%=|<<|>>|->|[-+*/%<>=!&|^?:;,.(){}\[\]'])
@@ -215,6 +223,9 @@ KEYWORDS = set("""const int bool clock chan urgent broadcast void double struct 
  true false forall exists sum system process state init trans guard sync assign select priority default not and or imply
  hybrid string break continue switch case""".split())
 BUILTIN_TYPES = {"int", "bool", "clock", "chan", "double", "void", "scalar", "struct"}
+# words of the query language that are identifiers to the tokeniser above but not operand uses
+QUERY_WORDS = {"A", "E", "U", "W", "R", "Pr", "simulate", "sup", "inf", "bounds", "max", "min", "deadlock", "control", "minE", "maxE",
+               "strategy", "under", "saveStrategy", "loadStrategy"}
 
 
 def tokenize(text):
@@ -245,12 +256,27 @@ def line_col(text, off):
 LAYOUTS = ["plain", "blank-lines", "crlf", "comments"]
 
 
-def relayout(text, layout, salt=0):
+def relayout(text, layout, salt=0, kind=None):
+    """`kind` = kind of the block.  In a query a line end outside a comment ends the query (a formula text is a list of queries, one
+    per line, empty ones allowed), so the layouts of a query block put their line ends in front of the query, inside comments and
+    behind line continuations only."""
     if layout == "plain":
         return text
     if layout == "blank-lines":
         return "\n\n\n" + text
     toks = tokenize(text)
+    if kind == "query":
+        if layout == "crlf":
+            return "\r\n\r\n" + text
+        fill = ["/* c */", "\\\n", "/* a\n b */", " \\ \n", "/**/", "/* // */"]
+        out, prev = ["/* lead\n   ing */\n"], 0
+        for n, (k, s, a, b) in enumerate(toks):
+            gap = text[prev:a]
+            if n > 0 and (n + salt) % 2 == 0:
+                gap += " " + fill[(n + salt) % len(fill)] + " "
+            out.append(gap + s)
+            prev = b
+        return "".join(out) + text[prev:]
     if layout == "crlf":
         # existing line ends become CRLF, and every third gap between tokens becomes a CRLF line break
         out, prev = [], 0
@@ -295,7 +321,9 @@ def is_use(block, toks, i):
     nxt = toks[i + 1][1] if i + 1 < len(toks) else None
     if prev == ".":
         return False
-    if block.kind == "label" and block.label_kind != "select":
+    if block.kind == "query" and (s in QUERY_WORDS or nxt == "("):
+        return False        # path quantifiers and the like; `Train(0)`: a process of a template array, not a plain name
+    if (block.kind == "label" and block.label_kind != "select") or block.kind == "query":
         # quantifier binders `forall (i : T)` declare
         if prev == "(" and i >= 2 and toks[i - 2][1] in ("forall", "exists", "sum") and nxt == ":":
             return False
@@ -337,7 +365,7 @@ def faults_at(block, text, toks, i, kind):
         if i < n and is_use(block, toks, i):
             out.append((splice(toks[i][2], toks[i][3], "(%s + zs)" % toks[i][1]), {}))
     elif kind == "side-effect":
-        if i < n and block.kind == "label" and block.label_kind in ("guard", "invariant") and is_use(block, toks, i):
+        if i < n and ((block.kind == "label" and block.label_kind in ("guard", "invariant")) or block.kind == "query") and is_use(block, toks, i):
             out.append((splice(toks[i][2], toks[i][3], "(%s + zi++)" % toks[i][1]), {}))
     elif kind == "unterminated-comment":
         # the comment must really stay open: later comment ends (of the layout) are broken up
